@@ -856,6 +856,192 @@ def mutate_tokens(rng, text):
     return "".join(tk)
 
 
+MPS_WORDS = ["ROWS", "COLUMNS", "RHS", "RANGES", "BOUNDS", "ENDATA", "NAME", "OBJSENSE", "OBJNAME", "REFROW", "'MARKER'", "'INTORG'", "'INTEND'",
+             "'SOSORG'", "'SOSEND'", "S1", "S2", "UP", "LO", "FX", "FR", "MI", "PL", "BV", "UI", "LI", "N", "L", "G", "E", "MAX", "MIN", "max", "Minimize", "MAXIMUM"]
+MPS_ODD = ["$x", "$", "*", "*x", "RHS", "BOUND", "RANGE", "1", "1x", "-", ".", "+", "inf", "Infinity", "+inf", "-INFx", "infinity$", "1e", "2/3", "-.5e1", "''MARKER'", "x'MARKER'",
+           "'MARKER'x", "'marker'", "5$", "obj", "\x0b", "a\x0bb"]
+
+
+def mutate_tokens_mps(rng, text):
+    """token- and line-level mutation of an MPS text (str) aimed at the reader's state machine: section keywords, marker lines, SOS blocks,
+    REFROW, set names, '$' comments, number-like names, indentation"""
+    k = rng.choice(["swap", "drop", "dup", "literal", "keyword", "keyword", "name", "name", "odd", "odd", "dollar", "move", "join", "sos", "refrow",
+                    "linedup", "linedrop", "lineswap", "unindent", "indent", "blankset", "objname", "two"])
+    if k == "two":
+        return mutate_tokens_mps(rng, mutate_tokens_mps(rng, text))
+    lines = text.split("\n")
+    if k in ("linedup", "linedrop", "lineswap", "unindent", "indent", "sos", "refrow", "blankset", "objname"):
+        idx = [i for i, l in enumerate(lines) if l.strip()]
+        if not idx:
+            return text
+        i = rng.choice(idx)
+        if k == "linedup":
+            lines.insert(rng.choice(idx), lines[i])
+        elif k == "linedrop":
+            del lines[i]
+        elif k == "lineswap":
+            j = rng.choice(idx)
+            lines[i], lines[j] = lines[j], lines[i]
+        elif k == "unindent":
+            lines[i] = lines[i].lstrip()
+        elif k == "indent":
+            lines[i] = rng.choice([" ", "\t", "  "]) + lines[i]
+        elif k == "blankset":
+            w = lines[i].split()
+            if lines[i][:1].isspace() and len(w) >= 3:
+                j = rng.choice([0, 1])
+                lines[i] = " " + " ".join(w[:j] + w[j + 1:])
+        elif k == "objname":
+            rows = [l.split()[1] for l in lines if l[:1] == " " and len(l.split()) == 2 and l.split()[0] in "NLGE"]
+            at = next((j for j, l in enumerate(lines) if l.startswith("ROWS")), 0)
+            lines[at:at] = ["OBJNAME", " " + (rng.choice(rows) if rows and rng.random() < 0.8 else "nosuchrow")]
+        elif k == "refrow":
+            rows = [l.split()[1] for l in lines if l[:1] == " " and len(l.split()) == 2 and l.split()[0] in "NLGE"]
+            at = next((j for j, l in enumerate(lines) if l.startswith("ROWS")), 0)
+            if rng.random() < 0.2:
+                at = len(lines) - 2
+            lines[at:at] = ["REFROW", " " + (rng.choice(rows) if rows and rng.random() < 0.8 else "nosuchrow")]
+            k = "sos" if rng.random() < 0.7 else k
+        if k == "sos":
+            c0 = next((j for j, l in enumerate(lines) if l.startswith("COLUMNS")), None)
+            c1 = next((j for j, l in enumerate(lines) if l.startswith(("RHS", "RANGES", "BOUNDS", "ENDATA")) and c0 is not None and j > c0), None)
+            if c0 is not None and c1 is not None and c1 > c0 + 1:
+                a = rng.randint(c0 + 1, c1 - 1)
+                b = rng.randint(a, c1 - 1)
+                ty = rng.choice(["S1", "S2", "S1", "", "S3"])
+                lines[b + 1:b + 1] = [" SOS2 'MARKER' 'SOSEND'"] if rng.random() < 0.9 else []
+                lines[a:a] = [(" %s SOS1 'MARKER' 'SOSORG'" % ty) if ty else " SOS1 'MARKER' 'SOSORG'"]
+                if rng.random() < 0.3:      # a second set over the same region: "member of SOS set"
+                    lines[b + 3:b + 3] = [" S1 SOS3 'MARKER' 'SOSORG'", lines[a + 1] if a + 1 < len(lines) else " x r 1", " SOS4 'MARKER' 'SOSEND'"]
+        return "\n".join(lines)
+    tk = _tokens(text)
+    idx = [i for i, t in enumerate(tk) if not t.isspace()]
+    if not idx:
+        return text
+    i = rng.choice(idx)
+    if k == "swap":
+        j = rng.choice(idx)
+        tk[i], tk[j] = tk[j], tk[i]
+    elif k == "drop":
+        tk[i] = ""
+    elif k == "dup":
+        tk[i] = tk[i] + " " + tk[i]
+    elif k == "literal":
+        tk[i] = rng.choice(PATHOLOGICAL)
+    elif k == "keyword":
+        tk[i] = rng.choice(MPS_WORDS)
+    elif k == "name":
+        tk[i] = tk[rng.choice(idx)]
+    elif k == "odd":
+        tk[i] = rng.choice(MPS_ODD)
+    elif k == "dollar":
+        tk[i] = rng.choice(["$ ", "$", " $c "]) + tk[i]
+    elif k == "move":
+        t = tk[i]
+        tk[i] = ""
+        tk.insert(rng.randrange(len(tk) + 1), " " + t + " ")
+    elif k == "join":
+        tk[i] = tk[i] + (tk[i + 2] if i + 2 < len(tk) else "x")
+    return "".join(tk)
+
+
+# ----------------------------------------------------------------------------- hand-written MPS probes (C10 tie, C11 reasons)
+
+_MPS_BASE = dict(head="NAME t\n", rows="ROWS\n N obj\n L r1\n G r2\n", cols="COLUMNS\n x obj 1 r1 1\n y obj 2 r2 1\n", rhs="RHS\n RHS r1 4 r2 1\n",
+                 rng="", bnd="BOUNDS\n UP BND x 3\n", end="ENDATA\n")
+
+
+def _mps(**kw):
+    d = dict(_MPS_BASE)
+    d.update(kw)
+    return d["head"] + d["rows"] + d["cols"] + d["rhs"] + d["rng"] + d["bnd"] + d["end"]
+
+
+def mps_reason_files():
+    """one MPS file per rejection reason of the reader model IO/MpsRead.mreason: {reason: text}"""
+    sos = lambda a, b: "COLUMNS\n S1 s1 'MARKER' 'SOSORG'\n" + a + " s1e 'MARKER' 'SOSEND'\n" + b
+    return {
+        "BadKey": _mps(rows="ROWS\n N obj\n L r1\n G r2\nFOO\n"),
+        "TwoSections": _mps(cols="COLUMNS\n x obj 1 r1 1\n y obj 2 r2 1\nROWS\n L r3\n"),
+        "SectionOrder": "NAME t\nCOLUMNS\n x obj 1\nROWS\n N obj\nENDATA\n",
+        "MissingObjLine": "NAME t\nOBJSENSE\n",
+        "BadObjRecord": _mps(head="NAME t\nOBJSENSE\n"),
+        "BadObjsense": _mps(head="NAME t\nOBJSENSE\n MAXI\n"),
+        "BadRefrow": _mps(head="NAME t\nREFROW\n"),
+        "NoSection": _mps(head="NAME t\n x y\n"),
+        "RowSense": _mps(rows="ROWS\n N obj\n X r1\n G r2\n"),
+        "RowRepeated": _mps(rows="ROWS\n N obj\n L r1\n G r2\n E r1\n"),
+        "RowMissingName": _mps(rows="ROWS\n N obj\n L r1\n G r2\n L\n"),
+        "MarkerBad": _mps(cols="COLUMNS\n M1 foo 'MARKER' 'INTORG'\n x obj 1 r1 1\n y obj 2 r2 1\n"),
+        "MarkerMissing": _mps(cols="COLUMNS\n M1 'MARKER'\n x obj 1 r1 1\n y obj 2 r2 1\n"),
+        "MarkerField": _mps(cols="COLUMNS\n M1 'MARKER' 'FOO'\n x obj 1 r1 1\n y obj 2 r2 1\n"),
+        "SosOther": _mps(cols=sos(" x obj 1 r1 1\n", " S2 s2 'MARKER' 'SOSORG'\n x r2 1\n y obj 2 r2 1\n s2e 'MARKER' 'SOSEND'\n")),
+        "ColMissingFields": _mps(cols="COLUMNS\n x obj 1 r1 1\n y\n"),
+        "ColNotRow": _mps(cols="COLUMNS\n x obj 1 r1 1\n y nosuch 2 r2 1\n"),
+        "ColBadCoef": _mps(cols="COLUMNS\n x obj 1 r1 1\n y obj abc\n"),
+        "RhsMissingRow": _mps(rhs="RHS\n RHS\n"),
+        "RhsNotRow": _mps(rhs="RHS\n RHS nosuch 1\n"),
+        "RhsBadCoef": _mps(rhs="RHS\n RHS r1 abc\n"),
+        "RhsTwice": _mps(rhs="RHS\n RHS r1 4\n RHS r1 5\n"),
+        "RngMissingRow": _mps(rng="RANGES\n RNG\n"),
+        "RngNotRow": _mps(rng="RANGES\n RNG nosuch 1\n"),
+        "RngBadCoef": _mps(rng="RANGES\n RNG r1 e5\n"),
+        "BndType": _mps(bnd="BOUNDS\n XX BND x 3\n"),
+        "BndNoIdent": _mps(bnd="BOUNDS\n UP\n"),
+        "BndMissingCol": _mps(bnd="BOUNDS\n UP BND\n"),
+        "BndNotCol": _mps(bnd="BOUNDS\n UP BND nosuch 3\n"),
+        "BndBadValue": _mps(bnd="BOUNDS\n UP BND x infx\n"),
+        "ObjNameUnknown": _mps(head="NAME t\nOBJNAME\n nosuch\n"),
+        "NoNRow": _mps(rows="ROWS\n L r1\n G r2\n", cols="COLUMNS\n x r1 1\n y r2 1\n"),
+        "RefrowUnknown": _mps(head="NAME t\nREFROW\n nosuch\n"),
+        "NoCols": _mps(cols="COLUMNS\n", bnd=""),
+        "SosInt": _mps(cols=sos(" x obj 1 r1 1\n y obj 2 r2 1\n", ""), bnd="BOUNDS\n BV BND x\n"),
+        "SosWeight": _mps(head="NAME t\nREFROW\n r1\n", cols=sos(" x obj 1 r1 1\n y obj 2 r2 1 r1 1\n", "")),
+        "BoundsCross": _mps(bnd="BOUNDS\n LO BND x 5\n UP BND x 3\n"),
+        "NoUsedCols": "NAME t\nROWS\n N obj\n N free\n L r1\nCOLUMNS\n x free 1\nENDATA\n",
+        "NoRows": "NAME t\nROWS\n N obj\nCOLUMNS\n x obj 1\nENDATA\n",
+        "RangeOnN": _mps(head="NAME t\nOBJNAME\n r1\n", rng="RANGES\n RNG r1 2\n"),
+    }
+
+
+def mps_accept_probes():
+    """valid MPS files aimed at the quirks of the reader (all accepted by the code as it is): [(name, text)]"""
+    return [
+        ("base", _mps()),
+        ("dollar-row-in-field-2", "NAME t\nROWS\n N obj\n L $r1\n G r2\nCOLUMNS\n x $r1 1 obj 1\n y obj 2 r2 1\nRHS\n RHS $r1 4\n $r1 7\nENDATA\n"),
+        ("dollar-comments", _mps(cols="COLUMNS\n x obj 1 $ c1\n x r1 1 $c2 r2 5\n y obj 2 r2 1$\n", bnd="BOUNDS\n UP BND x 3 $ c\n MI BND y $c\n")),
+        ("star-comment-and-blank-lines", "* c\nNAME t\n\n*ROWS\n" + _mps()[7:]),
+        ("e-negative-range", _mps(rows="ROWS\n N obj\n E r1\n E r2\n", rng="RANGES\n RNG r1 -3 r2 2\n")),
+        ("l-g-ranges-both-signs", _mps(rng="RANGES\n RNG r1 -3 r2 -2\n")),
+        ("range-on-n-row-ignored", _mps(rng="RANGES\n RNG obj 3 r1 1\n")),
+        ("second-range-ignored", _mps(rng="RANGES\n RNG r1 1\n RNG r1 5\n")),
+        ("second-rhs-set-skipped", _mps(rhs="RHS\n RHS r1 4\n OTHER r1 9 r2 7\n RHS r2 1\n")),
+        ("blank-set-names", _mps(rhs="RHS\n    r1 4 r2 1\n", rng="RANGES\n  r2 3\n", bnd="BOUNDS\n UP x 3\n LO y -1\n")),
+        ("objective-rhs-ignored", _mps(rhs="RHS\n RHS obj -5 r1 4\n")),
+        ("bound-types", _mps(bnd="BOUNDS\n BV BND x\n LI BND y -2\n UI BND y 7\n")),
+        ("bound-inf-spellings", _mps(bnd="BOUNDS\n LO BND x -inf\n UP BND x +INFINITY\n UP BND y Inf$c\n LO BND y -1e1\n")),
+        ("fx-fr-mi-pl", _mps(bnd="BOUNDS\n FX BND x 2.5\n FR BND y\n MI BND y\n PL BND y\n")),
+        ("previous-bound-kept", _mps(bnd="BOUNDS\n UP BND x 3\n UP BND x 9\n FX BND x 1\n")),
+        ("negative-upper", _mps(bnd="BOUNDS\n UP BND x -3\n")),
+        ("int-markers-and-second-mention", _mps(cols="COLUMNS\n M1 'MARKER' 'INTORG'\n x obj 1\n M2 'MARKER' 'INTEND'\n y obj 2 r2 1\n M3 'MARKER' 'INTORG'\n y r1 1\n x r1 1\n M4 'MARKER' 'INTEND'\n")),
+        ("marker-repeats-mode", _mps(cols="COLUMNS\n M1 'MARKER' 'INTEND'\n x obj 1 r1 1\n M2 'MARKER' 'INTORG'\n M3 'MARKER' 'INTORG'\n y obj 2 r2 1\n")),
+        ("sos-sets", _mps(cols="COLUMNS\n S1 s1 'MARKER' 'SOSORG'\n x obj 1 r1 1\n s1e 'MARKER' 'SOSEND'\n S2 s2 'MARKER' 'SOSORG'\n y obj 2 r2 1\n y r1 3\n s2e 'MARKER' 'SOSEND'\n")),
+        ("refrow-with-sos", _mps(head="NAME t\nREFROW\n r1\n", cols="COLUMNS\n S1 s1 'MARKER' 'SOSORG'\n x obj 1 r1 1\n y obj 2 r2 1 r1 3\n s1e 'MARKER' 'SOSEND'\n")),
+        ("objname-objsense", _mps(head="NAME t\nOBJSENSE\n Maximize\nOBJNAME\n r2\n")),
+        ("repeated-and-zero-entries", _mps(cols="COLUMNS\n x obj 1 r1 1\n x r1 2 obj 0\n y obj 2 r2 1\n y r2 -1 r1 0\n")),
+        ("column-in-unused-n-row-only", _mps(rows="ROWS\n N obj\n N free\n L r1\n G r2\n", cols="COLUMNS\n x obj 1 r1 1\n y obj 2 r2 1\n z free 4\n")),
+        ("number-prefix-then-name", _mps(cols="COLUMNS\n x obj 1 r1 1r2 5\n y obj 2 r2 1\n")),
+        ("tabs-cr-ff", "NAME\tt\r\nROWS\r\n\tN\tobj\r\n \fL r1\r\n G\tr2\nCOLUMNS\n\tx\tobj\t1\tr1\t1\r\n y obj 2 r2 1\nRHS\n RHS r1 4\nENDATA\n"),
+        ("vertical-tab-in-line", "NAME t\nROWS\n N obj\n L r1\nCOLUMNS\n x obj 1 r1 1\n \x0b\n x\x0br1 2\nENDATA\n"),
+        ("no-final-newline-no-endata", _mps(end="")[:-1]),
+        ("text-after-endata", _mps() + "garbage here\n ROWS\n"),
+        ("key-line-with-extra-fields", _mps(rows="ROWS extra stuff\n N obj\n L r1\n G r2\n")),
+        ("quote-names", _mps(rows="ROWS\n N obj\n L r'1\n G r2\n", cols="COLUMNS\n x' obj 1 r'1 1\n y obj 2 r2 1\n", rhs="RHS\n RHS r'1 4\n", bnd="BOUNDS\n UP BND x' 3\n")),
+        ("setname-is-a-row-but-no-number-follows", _mps(rows="ROWS\n N obj\n L RHS\n G r2\n", cols="COLUMNS\n x obj 1 RHS 1\n y obj 2 r2 1\n", rhs="RHS\n RHS RHS 4\n RHS r2 1\n")),
+        ("setname-clash-blank-heuristic", _mps(rows="ROWS\n N obj\n L RHS\n G 1\n", cols="COLUMNS\n x obj 1 RHS 1\n y obj 2 1 1\n", rhs="RHS\n RHS RHS 4\n RHS 1 5\n")),
+    ]
+
+
 def mutate_bytes(rng, data):
     """byte-level mutation of file content (bytes)"""
     b = bytearray(data)
